@@ -164,10 +164,10 @@ PROPS = {
         assumptions=[],
     ),
     'C15': dict(
-        level_text='Bounded model checking of the real shared-formula text rewriter (replace_cell_names -> offset_cell_name -> coordinate_to_name / column_number_to_name / get_row_column) on master-formula templates for every member offset in 0..=2 x 0..=2 (admitted: a single relative reference with both / one offset dimension symbolic, and a reference followed by a trailing name; the larger templates - two references, area in a function call, quoted text, absolute and mixed references, function name with digits, sheet-qualified reference - exceed 12-20 GB and are kept as c15_x_* harnesses that no tier runs), against the rule stated by the property; plus column_number_to_name == bijective base-26 and its inverse for every column of the sheet.',
+        level_text='Bounded model checking of the real shared-formula text rewriter (replace_cell_names -> offset_cell_name -> coordinate_to_name / column_number_to_name / get_row_column) on master-formula templates for every member offset in 0..=2 x 0..=2 (admitted: a single relative reference with both / one offset dimension symbolic, and a reference followed by a trailing name; the larger templates - two references, area in a function call, quoted text, absolute and mixed references, function name with digits, sheet-qualified reference - exceed 12-20 GB and are kept as c15_x_* harnesses that no tier runs), against the rule stated by the property; plus column_number_to_name == bijective base-26 for every column of the sheet.',
         hosts={'src/xlsx/mod.rs': ['c15_xlsx.rs']},
         functions=['xlsx::replace_cell_names', 'xlsx::offset_cell_name', 'xlsx::coordinate_to_name', 'xlsx::column_number_to_name', 'xlsx::get_row_column'],
-        bounds={'templates': 'quick: "B3", "$B$3"; thorough: 7 more', 'offsets': 'dr, dc symbolic in 0..=2', 'column names': 'all columns 0..16383 by letter count, and rejection of every column >= 16384'},
+        bounds={'templates': '"B3", "B3*T"', 'offsets': 'dr, dc symbolic in 0..=2', 'column names': 'all columns 0..16383 by letter count, and rejection of every column >= 16384'},
         outside=['templates beyond the two admitted ones (c15_x_*)', 'the offset map built from the ref attribute and the group shapes (inline in XlsxCellReader::next_formula, XML-bound)', 'other templates / larger offsets', 'negative offsets'],
         assumptions=[],
     ),
